@@ -9,8 +9,8 @@ ASSUMPTIONS = ["ll2c.py translation of LLVM IR to C (validated natively on a seq
                "non-inlined calls execute atomically (none in these scenarios: everything is inlined)"]
 SCEN = {1: ("aba_pop_vs_pop_pop_push", ["thread0", "thread1"]), 2: ("pushpop_x2", ["thread0", "thread1"]),
         3: ("chain_vs_pop_pop", ["thread0", "thread1"]), 4: ("trypop_x2_vs_push", ["thread0", "thread1", "thread2"]),
-        5: ("recyclers_x2", ["thread0", "thread1"])}
-BOUNDS = {"quick": {"rounds": 3, "scenarios": [1, 2, 3]}, "thorough": {"rounds": "3..4", "scenarios": [1, 2, 3, 4, 5]}}
+        5: ("recyclers_x2", ["thread0", "thread1"]), 6: ("pop_vs_pop_push", ["thread0", "thread1"])}
+BOUNDS = {"quick": {"rounds": 3, "scenarios": [1, 2, 3, 6]}, "thorough": {"rounds": "3..4", "scenarios": [1, 2, 3, 4, 5]}}
 def queries(ctx):
     qs = []
     def add(sc, R, tiers, unwind=None):
@@ -20,7 +20,7 @@ def queries(ctx):
                     info={"symbolic": ["schedule: every SC interleaving with <= %d scheduling slots per thread" % R],
                           "bounds": {"rounds": R, "threads": len(th)}, "functions": ["parsec_lifo_push", "parsec_lifo_pop", "parsec_lifo_try_pop", "parsec_lifo_chain"],
                           "stubs": []}))
-    for sc in (1, 2, 3):
+    for sc in (1, 2, 3, 6):
         add(sc, 3, ("quick", "thorough"))
     if ctx.thorough:
         for sc in (4, 5):
